@@ -118,8 +118,9 @@ LATENCY = Fraction(1, 100)  # timers due within this window of the one being run
 def _batch_hook(env):
     n = [0]
 
-    def hook(first, other):
-        if not (other._when <= first._when + LATENCY):  # may fork (symbolic times)
+    def hook(first, other, now=None):
+        ref = first._when if first is not None else now
+        if not (other._when <= ref + LATENCY):  # may fork (symbolic times)
             return False
         n[0] += 1
         return env.flag(f"batch_{n[0]}")
@@ -154,6 +155,8 @@ class Ether:
     def __init__(self, env, loop, proto, cfg):
         self.env, self.loop, self.proto, self.cfg = env, loop, proto, cfg
         self.writes = []  # (time, cmd_idx | None, frame)
+        self.wseq = []  # event sequence number of each write (same order as self.writes)
+        self.seq = 0  # event counter shared by writes and caller completions (orders events at the same instant)
         self.n = 0
         self.budget = cfg.get("deliveries", 2)
         self.owner = {}  # id(pkt) -> (cmd_idx, 'echo' | 'reply' | 'foreign')
@@ -234,6 +237,8 @@ class Ether:
         self.n += 1
         ci = self.cmds.get(frame)
         self.writes.append((self.loop.time(), ci, frame))
+        self.seq += 1
+        self.wseq.append(self.seq)
         if self.cfg.get("write_failures") and self.failed_writes < self.cfg["write_failures"]:
             if self.env.flag(f"wfail_{i}"):
                 self.failed_writes += 1
@@ -364,8 +369,8 @@ def run_episode(env, cfg):
             T = T[i]
         if T == "sym":
             T = env.real(f"T{i}", Fraction(1, 100), cfg.get("Tmax", 30))
-            if not env.symbolic:
-                T = Fraction(float(T))  # the library is given a float (as a real caller would), the oracle the same value
+            # replay: the exact rational the solver chose (a float would move a value that sits exactly on a timer
+            # or on the latency window off that boundary, and the replayed schedule would be another one)
         if prios == "sym":
             pr = env.choice(f"prio{i}", [Priority.HIGH, Priority.DEFAULT, Priority.LOW])
         else:
@@ -379,7 +384,7 @@ def run_episode(env, cfg):
         if c["i"] > 0 and cfg.get("stagger"):
             await asyncio.sleep(c["start"])
         c["t_start"] = loop.time()
-        qos = QosParams(max_retries=cfg.get("max_retries", 3), timeout=c["T"] if env.symbolic else float(c["T"]), wait_for_reply=cfg.get("wait_for_reply", None))
+        qos = QosParams(max_retries=cfg.get("max_retries", 3), timeout=c["T"], wait_for_reply=cfg.get("wait_for_reply", None))
         try:
             pkt = await proto.send_cmd(c["cmd"], priority=c["prio"], qos=qos)
             c["outcome"] = ("pkt", ether.owner.get(id(pkt), ("?", "unknown")))
@@ -390,6 +395,8 @@ def run_episode(env, cfg):
                 raise
             c["outcome"] = ("bad-exc", type(e).__name__, str(e)[:80])
         c["t_done"] = loop.time()
+        ether.seq += 1
+        c["seq_done"] = ether.seq
 
     tasks = [loop.create_task(caller(c)) for c in callers]
 
@@ -431,6 +438,7 @@ def run_episode(env, cfg):
         "callers": callers,
         "hung": hung,
         "writes": ether.writes,
+        "wseq": ether.wseq,
         "writes_at_answer": writes_at_answer,
         "state": type(ctxt._state).__name__,
         "fut_pending": ctxt._fut is not None and not ctxt._fut.done(),
@@ -602,9 +610,12 @@ def oracle_c08(env, cfg, obs):
         if o[0] == "err" and len(ws) < limit and o[2] == "caller-timeout":
             # fewer transmissions are only legitimate if the caller's own timeout cut it short
             env.check(c["t_done"] - c["t_start"] >= env.min_(c["T"], 20), "C08:fewer-only-if-timeout")
-        # never transmitted again once the caller has been answered
+        # never transmitted again once the caller has been answered (by time, and by event order at the same instant)
         for t in ws:
             env.check(t <= c["t_done"], "C08:no-transmission-after-answer")
+        if c.get("seq_done") is not None and not cfg.get("twins"):
+            late = [sq for (tt, ci, _), sq in zip(obs["writes"], obs.get("wseq", [])) if ci == i and sq > c["seq_done"]]
+            env.check(not late, "C08:no-transmission-after-answer", info="after " + " ".join(str(x).split(":")[0] for x in o[1:3]))
         # waits between successive transmissions never shrink below the base wait
         for a, b in zip(ws, ws[1:]):
             env.check(b - a >= 0.5, "C08:retry-not-before-base-wait")
@@ -612,7 +623,12 @@ def oracle_c08(env, cfg, obs):
     if not obs["delivered_at_answer"] and len(obs["callers"]) == 1 and not cfg.get("impersonate"):
         ws = per.get(0, [])
         for j, (a, b) in enumerate(zip(ws, ws[1:])):
-            env.check(b - a == 0.5 * 2 ** min(j, 3), "C08:wait-doubles-up-to-8x", info=j)
+            w = 0.5 * 2 ** min(j, 3)
+            if cfg.get("latency"):
+                # a burst of loop iterations takes up to the modelled latency: the retransmission may go out that late
+                env.check(env.all_(b - a >= w, b - a <= w + LATENCY), "C08:wait-doubles-up-to-8x", info=j)
+            else:
+                env.check(b - a == w, "C08:wait-doubles-up-to-8x", info=j)
     # one in flight: the transmissions of two commands never interleave, and a command is first
     # transmitted only after the previous one's caller was answered
     order = [ci for (_, ci, _) in obs["writes"]]
@@ -780,6 +796,9 @@ def replay_item(prop, item):
     r["signature"] = f"{item['label']} [{tag}]"
     if tag != "reconnect" and r.get("sites"):
         r["signature"] += " " + r["sites"][0]
+    if tag == "lat" and item["label"] == "C08:no-transmission-after-answer":
+        # which answer the caller had been given when the frame went out tells one race from another
+        r["signature"] += " " + next((i for i in r.get("infos", []) if i.startswith("after ")), "by time")
     return r
 
 
